@@ -723,3 +723,78 @@ Proof.
   - rewrite (wrap_I32_id (Z.of_N ph_bits)) by (pose proof ph_bits_int; lia). rewrite ph_bits_ne. xcbn. rewrite exec_skip.
     apply (Hend m0 VUndef VUndef vw0 _ Hst).
 Qed.
+
+(* ------------------------------------------------------------------ ren_cwid *)
+(* what a call of ren_cwid (and of ren_position) may do to the memory: new blocks are appended (the semantics
+   never reclaims the address-taken locals wid, src, dst), the static bits of ren_placeholder goes from 0xffff
+   to the common bits; every other block that existed before is untouched *)
+Definition ren_frame (m M : mem) : Prop :=
+  (length m <= length M)%nat /\
+  (forall g, (g < length m)%nat -> g <> G_bits -> nth_error M g = nth_error m g) /\ bits_ok M.
+Lemma ren_frame_refl m : bits_ok m -> ren_frame m m.
+Proof. intro H. split; [lia|]. split; [reflexivity|exact H]. Qed.
+Lemma ren_frame_trans m1 m2 m3 : ren_frame m1 m2 -> ren_frame m2 m3 -> ren_frame m1 m3.
+Proof.
+  intros [L1 [O1 _]] [L2 [O2 B2]]. split; [lia|]. split; [|exact B2].
+  intros g Hg Ng. rewrite O2 by (lia || assumption). apply O1; assumption.
+Qed.
+Lemma bits_lt m : bits_ok m -> (G_bits < length m)%nat.
+Proof. intros [H|H]; apply nth_error_Some; unfold cell_at in H; congruence. Qed.
+Lemma ren_frame_ro m M : ren_frame m M -> ro_at m -> ro_at M.
+Proof.
+  intros [_ [O _]] H g Hg. rewrite O; [apply H; exact Hg|apply (ro_lt m g H Hg)|].
+  intro E. subst g. rewrite ro_bits in Hg. discriminate.
+Qed.
+Lemma ren_frame_str m M b s : ren_frame m M -> bits_ok m -> str_at m b s -> str_at M b s.
+Proof.
+  intros [_ [O _]] Hb Hs. unfold str_at. rewrite O; [exact Hs|apply nth_error_Some; unfold str_at in Hs; congruence|].
+  apply (str_bits_ne m b s Hs Hb).
+Qed.
+Lemma ren_frame_cell m M g v : ren_frame m M -> cell_at m g v -> g <> G_bits -> cell_at M g v.
+Proof. intros [_ [O _]] Hc Ng. unfold cell_at in *. rewrite O; [exact Hc|apply nth_error_Some; congruence|exact Ng]. Qed.
+
+Lemma cc_tab : forall c, (c < 256)%N -> (wrap I32 (wrap I8 (Z.of_N c)) =? 9) = (c =? 9)%N.
+Proof. byte_fact. Qed.
+Lemma land7 p : 0 <= Z.land p 7 <= 7.
+Proof. change 7 with (Z.ones 3) at 1 2. rewrite Z.land_ones by lia. pose proof (Z.mod_pos_bound p (2 ^ 3) ltac:(lia)). change (2 ^ 3) with 8 in *. lia. Qed.
+
+Theorem tr_ren_cwid m b s o pos d fuel :
+  ro_at m -> bits_ok m -> str_at m b s -> bytes_lt256 s -> (o + uc_len_b (nthb s o) - 1 <= length s)%nat -> (o <= length s)%nat ->
+  (nph < fuel)%nat -> (fuel_tabs <= fuel)%nat ->
+  exists M, callf cprog fuel (S (S (S (S (S d))))) F_ren_cwid [VPtr b (Z.of_nat o); VInt pos] m
+            = Ok (VInt (ren_cwid (skipn o s) pos), M) /\ ren_frame m M.
+Proof.
+  intros Hro Hbits Hs H256 Hlen Ho Hf HF.
+  pose proof (bits_lt m Hbits) as Lbits.
+  assert (Lb : (b < length m)%nat) by (apply nth_error_Some; unfold str_at in Hs; congruence).
+  enter F_ren_cwid cf_ren_cwid. xstep.
+  rewrite malloc_ok by lia. xstep. change (repeat VUndef (Z.to_nat 1)) with [VUndef].
+  match goal with |- context [mkst _ ?M] => remember M as m0 eqn:Em0 end.
+  assert (Hs0 : str_at m0 b s) by (unfold str_at; rewrite Em0, nth_error_app1 by exact Lb; exact Hs).
+  assert (Hfr0 : ren_frame m m0).
+  { rewrite Em0. split; [rewrite app_length; lia|]. split; [intros g Hg _; apply nth_error_app1; exact Hg|].
+    destruct Hbits as [H|H]; [left|right]; unfold cell_at in *; rewrite nth_error_app1 by exact Lbits; exact H. }
+  replace (Z.of_nat o + 1 * 0) with (Z.of_nat o) by lia.
+  rewrite (load_str m0 b s _ o Hs0) by lia. xstep.
+  rewrite (cc_tab _ (nthb_lt256 s o H256)). unfold ren_cwid. rewrite hd0_skipn.
+  destruct (nthb s o =? 9)%N eqn:E9; xstep.
+  - unfold TABSTOP, TABMASK. pose proof (land7 pos). rewrite chk_I32 by lia. xstep. exists m0. split; [reflexivity|exact Hfr0].
+  - assert (Hro0 : ro_at m0) by (apply (ren_frame_ro m); assumption).
+    assert (Hb0 : bits_ok m0) by (destruct Hfr0 as [_ [_ H]]; exact H).
+    assert (Hwb : nth_error m0 (length m) = Some [VUndef]) by (rewrite Em0; apply nth_error_app_new).
+    destruct (tr_ren_placeholder m0 b s o (length m) VUndef d fuel Hro0 Hb0 Hs0 H256 Hlen Ho Hwb ltac:(lia)
+                (ro_false_ge m (length m) Hro (le_n _)) ltac:(lia) Hf HF) as [v [M [X [HL [HO [HW [HB Hv]]]]]]].
+    rewrite X. xstep.
+    assert (Hfr : ren_frame m M).
+    { split; [rewrite HL, Em0, app_length; cbn [length]; lia|]. split; [|right; exact HB].
+      intros g Hg Ng. rewrite HO by (try (rewrite Em0, app_length; cbn [length]); lia || assumption).
+      rewrite Em0. apply nth_error_app1. exact Hg. }
+    pose proof (ren_cwid_range (skipn o s) 0 ltac:(lia)) as Hrange. unfold ren_cwid in Hrange. rewrite hd0_skipn, E9 in Hrange.
+    destruct (ren_placeholder (skipn o s)) as [[dm|] w]; cbn [fst snd] in *.
+    + destruct Hv as [g [-> _]]. xstep.
+      rewrite (load_ptr_cell M (length m) _ 0 _ HW ltac:(lia) eq_refl). xstep.
+      rewrite wrap_I32_id by lia. exists M. split; [reflexivity|exact Hfr].
+    + subst v. xstep.
+      rewrite (tr_uc_wid_ro M b s o (S d) fuel (ren_frame_ro _ _ Hfr Hro) (ren_frame_str _ _ _ _ Hfr Hbits Hs) H256 Hlen Ho HF).
+      xstep. exists M. split; [reflexivity|exact Hfr].
+Qed.
